@@ -42,7 +42,9 @@ Inductive tev : Type :=
 | TCallTimer (j now : Z) | TCallTask (j : Z) | TCallEvent (j : Z) | TCallRaw (j : Z)
 | TWait (n call maxev timeout : Z) (interest : list (Z * Z * bool)) (gnd : list (Z * Z))
         (* call: 0 epoll_wait 1 epoll_pwait2 2 poll 3 ppoll; for poll maxev is nfds *)
-| TRet (n : option Z) (clk : Z)           (* None = EINTR *)
+| TRet (n : option Z) (fds : list Z) (clk : Z)   (* None = EINTR; fds: descriptors reported, in report order *)
+| TAct (a : action)                       (* an action whose guard passed (relative timer expiries resolved) *)
+| TMain                                   (* iv_main is entered *)
 | TKTfd (deadline : Z) | TKClose (fd : Z)
 | TRes (kind id rc : Z)                   (* kind 0 ft, 1 er, 2 rr *)
 | TEnd (quit numobjs : Z) | TTear (numobjs : Z) | TDone (openfds : Z)
@@ -89,7 +91,7 @@ Record core := {
   epfd : Z; tfd : Z;
   pwait2 : bool;                   (* epoll_pwait2_support *)
   efd_epoll : Z; efd_raw : Z;      (* eventfd_in_use, one copy per translation unit *)
-  active_fd : Z; active_ref : Z;
+  active_fd : Z; active_ref : Z; active_wr : Z;   (* iv_active_fd, its refcount, write end of the pipe fallback *)
   (* poll *)
   pfds : list (Z * Z);             (* (descriptor, events) *)
   pkeys : list Z;
@@ -110,29 +112,30 @@ Record core := {
 }.
 
 (* one setter per field (records are updated by reconstruction so that extraction stays plain) *)
-Definition set_fdt s v := {| fdt := v; active := active s; handled := handled s; numfds := numfds s; last_abs := last_abs s; last_abs_count := last_abs_count s; method := method s; notify := notify s; epfd := epfd s; tfd := tfd s; pwait2 := pwait2 s; efd_epoll := efd_epoll s; efd_raw := efd_raw s; active_fd := active_fd s; active_ref := active_ref s; pfds := pfds s; pkeys := pkeys s; quit := quit s; numobjs := numobjs s; heap := heap s; time := time s; time_valid := time_valid s; tasks := tasks s; cur := cur s; epoch := epoch s; tepoch := tepoch s; ev_pending := ev_pending s; ev_batch := ev_batch s; ev_count := ev_count s; ev_reg := ev_reg s; use_raw := use_raw s; rw_reg := rw_reg s; rw_rfd := rw_rfd s; rw_wfd := rw_wfd s; kern := kern s; trace := trace s; invoc := invoc s |}.
-Definition set_active s v := {| fdt := fdt s; active := v; handled := handled s; numfds := numfds s; last_abs := last_abs s; last_abs_count := last_abs_count s; method := method s; notify := notify s; epfd := epfd s; tfd := tfd s; pwait2 := pwait2 s; efd_epoll := efd_epoll s; efd_raw := efd_raw s; active_fd := active_fd s; active_ref := active_ref s; pfds := pfds s; pkeys := pkeys s; quit := quit s; numobjs := numobjs s; heap := heap s; time := time s; time_valid := time_valid s; tasks := tasks s; cur := cur s; epoch := epoch s; tepoch := tepoch s; ev_pending := ev_pending s; ev_batch := ev_batch s; ev_count := ev_count s; ev_reg := ev_reg s; use_raw := use_raw s; rw_reg := rw_reg s; rw_rfd := rw_rfd s; rw_wfd := rw_wfd s; kern := kern s; trace := trace s; invoc := invoc s |}.
-Definition set_handled s v := {| fdt := fdt s; active := active s; handled := v; numfds := numfds s; last_abs := last_abs s; last_abs_count := last_abs_count s; method := method s; notify := notify s; epfd := epfd s; tfd := tfd s; pwait2 := pwait2 s; efd_epoll := efd_epoll s; efd_raw := efd_raw s; active_fd := active_fd s; active_ref := active_ref s; pfds := pfds s; pkeys := pkeys s; quit := quit s; numobjs := numobjs s; heap := heap s; time := time s; time_valid := time_valid s; tasks := tasks s; cur := cur s; epoch := epoch s; tepoch := tepoch s; ev_pending := ev_pending s; ev_batch := ev_batch s; ev_count := ev_count s; ev_reg := ev_reg s; use_raw := use_raw s; rw_reg := rw_reg s; rw_rfd := rw_rfd s; rw_wfd := rw_wfd s; kern := kern s; trace := trace s; invoc := invoc s |}.
-Definition set_numfds s v := {| fdt := fdt s; active := active s; handled := handled s; numfds := v; last_abs := last_abs s; last_abs_count := last_abs_count s; method := method s; notify := notify s; epfd := epfd s; tfd := tfd s; pwait2 := pwait2 s; efd_epoll := efd_epoll s; efd_raw := efd_raw s; active_fd := active_fd s; active_ref := active_ref s; pfds := pfds s; pkeys := pkeys s; quit := quit s; numobjs := numobjs s; heap := heap s; time := time s; time_valid := time_valid s; tasks := tasks s; cur := cur s; epoch := epoch s; tepoch := tepoch s; ev_pending := ev_pending s; ev_batch := ev_batch s; ev_count := ev_count s; ev_reg := ev_reg s; use_raw := use_raw s; rw_reg := rw_reg s; rw_rfd := rw_rfd s; rw_wfd := rw_wfd s; kern := kern s; trace := trace s; invoc := invoc s |}.
-Definition set_last_abs s v c := {| fdt := fdt s; active := active s; handled := handled s; numfds := numfds s; last_abs := v; last_abs_count := c; method := method s; notify := notify s; epfd := epfd s; tfd := tfd s; pwait2 := pwait2 s; efd_epoll := efd_epoll s; efd_raw := efd_raw s; active_fd := active_fd s; active_ref := active_ref s; pfds := pfds s; pkeys := pkeys s; quit := quit s; numobjs := numobjs s; heap := heap s; time := time s; time_valid := time_valid s; tasks := tasks s; cur := cur s; epoch := epoch s; tepoch := tepoch s; ev_pending := ev_pending s; ev_batch := ev_batch s; ev_count := ev_count s; ev_reg := ev_reg s; use_raw := use_raw s; rw_reg := rw_reg s; rw_rfd := rw_rfd s; rw_wfd := rw_wfd s; kern := kern s; trace := trace s; invoc := invoc s |}.
-Definition set_method s v := {| fdt := fdt s; active := active s; handled := handled s; numfds := numfds s; last_abs := last_abs s; last_abs_count := last_abs_count s; method := v; notify := notify s; epfd := epfd s; tfd := tfd s; pwait2 := pwait2 s; efd_epoll := efd_epoll s; efd_raw := efd_raw s; active_fd := active_fd s; active_ref := active_ref s; pfds := pfds s; pkeys := pkeys s; quit := quit s; numobjs := numobjs s; heap := heap s; time := time s; time_valid := time_valid s; tasks := tasks s; cur := cur s; epoch := epoch s; tepoch := tepoch s; ev_pending := ev_pending s; ev_batch := ev_batch s; ev_count := ev_count s; ev_reg := ev_reg s; use_raw := use_raw s; rw_reg := rw_reg s; rw_rfd := rw_rfd s; rw_wfd := rw_wfd s; kern := kern s; trace := trace s; invoc := invoc s |}.
-Definition set_notify s v := {| fdt := fdt s; active := active s; handled := handled s; numfds := numfds s; last_abs := last_abs s; last_abs_count := last_abs_count s; method := method s; notify := v; epfd := epfd s; tfd := tfd s; pwait2 := pwait2 s; efd_epoll := efd_epoll s; efd_raw := efd_raw s; active_fd := active_fd s; active_ref := active_ref s; pfds := pfds s; pkeys := pkeys s; quit := quit s; numobjs := numobjs s; heap := heap s; time := time s; time_valid := time_valid s; tasks := tasks s; cur := cur s; epoch := epoch s; tepoch := tepoch s; ev_pending := ev_pending s; ev_batch := ev_batch s; ev_count := ev_count s; ev_reg := ev_reg s; use_raw := use_raw s; rw_reg := rw_reg s; rw_rfd := rw_rfd s; rw_wfd := rw_wfd s; kern := kern s; trace := trace s; invoc := invoc s |}.
-Definition set_epoll s e t p := {| fdt := fdt s; active := active s; handled := handled s; numfds := numfds s; last_abs := last_abs s; last_abs_count := last_abs_count s; method := method s; notify := notify s; epfd := e; tfd := t; pwait2 := p; efd_epoll := efd_epoll s; efd_raw := efd_raw s; active_fd := active_fd s; active_ref := active_ref s; pfds := pfds s; pkeys := pkeys s; quit := quit s; numobjs := numobjs s; heap := heap s; time := time s; time_valid := time_valid s; tasks := tasks s; cur := cur s; epoch := epoch s; tepoch := tepoch s; ev_pending := ev_pending s; ev_batch := ev_batch s; ev_count := ev_count s; ev_reg := ev_reg s; use_raw := use_raw s; rw_reg := rw_reg s; rw_rfd := rw_rfd s; rw_wfd := rw_wfd s; kern := kern s; trace := trace s; invoc := invoc s |}.
-Definition set_efd s a b := {| fdt := fdt s; active := active s; handled := handled s; numfds := numfds s; last_abs := last_abs s; last_abs_count := last_abs_count s; method := method s; notify := notify s; epfd := epfd s; tfd := tfd s; pwait2 := pwait2 s; efd_epoll := a; efd_raw := b; active_fd := active_fd s; active_ref := active_ref s; pfds := pfds s; pkeys := pkeys s; quit := quit s; numobjs := numobjs s; heap := heap s; time := time s; time_valid := time_valid s; tasks := tasks s; cur := cur s; epoch := epoch s; tepoch := tepoch s; ev_pending := ev_pending s; ev_batch := ev_batch s; ev_count := ev_count s; ev_reg := ev_reg s; use_raw := use_raw s; rw_reg := rw_reg s; rw_rfd := rw_rfd s; rw_wfd := rw_wfd s; kern := kern s; trace := trace s; invoc := invoc s |}.
-Definition set_activefd s a r := {| fdt := fdt s; active := active s; handled := handled s; numfds := numfds s; last_abs := last_abs s; last_abs_count := last_abs_count s; method := method s; notify := notify s; epfd := epfd s; tfd := tfd s; pwait2 := pwait2 s; efd_epoll := efd_epoll s; efd_raw := efd_raw s; active_fd := a; active_ref := r; pfds := pfds s; pkeys := pkeys s; quit := quit s; numobjs := numobjs s; heap := heap s; time := time s; time_valid := time_valid s; tasks := tasks s; cur := cur s; epoch := epoch s; tepoch := tepoch s; ev_pending := ev_pending s; ev_batch := ev_batch s; ev_count := ev_count s; ev_reg := ev_reg s; use_raw := use_raw s; rw_reg := rw_reg s; rw_rfd := rw_rfd s; rw_wfd := rw_wfd s; kern := kern s; trace := trace s; invoc := invoc s |}.
-Definition set_poll s p k := {| fdt := fdt s; active := active s; handled := handled s; numfds := numfds s; last_abs := last_abs s; last_abs_count := last_abs_count s; method := method s; notify := notify s; epfd := epfd s; tfd := tfd s; pwait2 := pwait2 s; efd_epoll := efd_epoll s; efd_raw := efd_raw s; active_fd := active_fd s; active_ref := active_ref s; pfds := p; pkeys := k; quit := quit s; numobjs := numobjs s; heap := heap s; time := time s; time_valid := time_valid s; tasks := tasks s; cur := cur s; epoch := epoch s; tepoch := tepoch s; ev_pending := ev_pending s; ev_batch := ev_batch s; ev_count := ev_count s; ev_reg := ev_reg s; use_raw := use_raw s; rw_reg := rw_reg s; rw_rfd := rw_rfd s; rw_wfd := rw_wfd s; kern := kern s; trace := trace s; invoc := invoc s |}.
-Definition set_quit s v := {| fdt := fdt s; active := active s; handled := handled s; numfds := numfds s; last_abs := last_abs s; last_abs_count := last_abs_count s; method := method s; notify := notify s; epfd := epfd s; tfd := tfd s; pwait2 := pwait2 s; efd_epoll := efd_epoll s; efd_raw := efd_raw s; active_fd := active_fd s; active_ref := active_ref s; pfds := pfds s; pkeys := pkeys s; quit := v; numobjs := numobjs s; heap := heap s; time := time s; time_valid := time_valid s; tasks := tasks s; cur := cur s; epoch := epoch s; tepoch := tepoch s; ev_pending := ev_pending s; ev_batch := ev_batch s; ev_count := ev_count s; ev_reg := ev_reg s; use_raw := use_raw s; rw_reg := rw_reg s; rw_rfd := rw_rfd s; rw_wfd := rw_wfd s; kern := kern s; trace := trace s; invoc := invoc s |}.
-Definition set_numobjs s v := {| fdt := fdt s; active := active s; handled := handled s; numfds := numfds s; last_abs := last_abs s; last_abs_count := last_abs_count s; method := method s; notify := notify s; epfd := epfd s; tfd := tfd s; pwait2 := pwait2 s; efd_epoll := efd_epoll s; efd_raw := efd_raw s; active_fd := active_fd s; active_ref := active_ref s; pfds := pfds s; pkeys := pkeys s; quit := quit s; numobjs := v; heap := heap s; time := time s; time_valid := time_valid s; tasks := tasks s; cur := cur s; epoch := epoch s; tepoch := tepoch s; ev_pending := ev_pending s; ev_batch := ev_batch s; ev_count := ev_count s; ev_reg := ev_reg s; use_raw := use_raw s; rw_reg := rw_reg s; rw_rfd := rw_rfd s; rw_wfd := rw_wfd s; kern := kern s; trace := trace s; invoc := invoc s |}.
-Definition set_heap s v := {| fdt := fdt s; active := active s; handled := handled s; numfds := numfds s; last_abs := last_abs s; last_abs_count := last_abs_count s; method := method s; notify := notify s; epfd := epfd s; tfd := tfd s; pwait2 := pwait2 s; efd_epoll := efd_epoll s; efd_raw := efd_raw s; active_fd := active_fd s; active_ref := active_ref s; pfds := pfds s; pkeys := pkeys s; quit := quit s; numobjs := numobjs s; heap := v; time := time s; time_valid := time_valid s; tasks := tasks s; cur := cur s; epoch := epoch s; tepoch := tepoch s; ev_pending := ev_pending s; ev_batch := ev_batch s; ev_count := ev_count s; ev_reg := ev_reg s; use_raw := use_raw s; rw_reg := rw_reg s; rw_rfd := rw_rfd s; rw_wfd := rw_wfd s; kern := kern s; trace := trace s; invoc := invoc s |}.
-Definition set_time s t v := {| fdt := fdt s; active := active s; handled := handled s; numfds := numfds s; last_abs := last_abs s; last_abs_count := last_abs_count s; method := method s; notify := notify s; epfd := epfd s; tfd := tfd s; pwait2 := pwait2 s; efd_epoll := efd_epoll s; efd_raw := efd_raw s; active_fd := active_fd s; active_ref := active_ref s; pfds := pfds s; pkeys := pkeys s; quit := quit s; numobjs := numobjs s; heap := heap s; time := t; time_valid := v; tasks := tasks s; cur := cur s; epoch := epoch s; tepoch := tepoch s; ev_pending := ev_pending s; ev_batch := ev_batch s; ev_count := ev_count s; ev_reg := ev_reg s; use_raw := use_raw s; rw_reg := rw_reg s; rw_rfd := rw_rfd s; rw_wfd := rw_wfd s; kern := kern s; trace := trace s; invoc := invoc s |}.
-Definition set_tasks s t c := {| fdt := fdt s; active := active s; handled := handled s; numfds := numfds s; last_abs := last_abs s; last_abs_count := last_abs_count s; method := method s; notify := notify s; epfd := epfd s; tfd := tfd s; pwait2 := pwait2 s; efd_epoll := efd_epoll s; efd_raw := efd_raw s; active_fd := active_fd s; active_ref := active_ref s; pfds := pfds s; pkeys := pkeys s; quit := quit s; numobjs := numobjs s; heap := heap s; time := time s; time_valid := time_valid s; tasks := t; cur := c; epoch := epoch s; tepoch := tepoch s; ev_pending := ev_pending s; ev_batch := ev_batch s; ev_count := ev_count s; ev_reg := ev_reg s; use_raw := use_raw s; rw_reg := rw_reg s; rw_rfd := rw_rfd s; rw_wfd := rw_wfd s; kern := kern s; trace := trace s; invoc := invoc s |}.
-Definition set_epoch s e t := {| fdt := fdt s; active := active s; handled := handled s; numfds := numfds s; last_abs := last_abs s; last_abs_count := last_abs_count s; method := method s; notify := notify s; epfd := epfd s; tfd := tfd s; pwait2 := pwait2 s; efd_epoll := efd_epoll s; efd_raw := efd_raw s; active_fd := active_fd s; active_ref := active_ref s; pfds := pfds s; pkeys := pkeys s; quit := quit s; numobjs := numobjs s; heap := heap s; time := time s; time_valid := time_valid s; tasks := tasks s; cur := cur s; epoch := e; tepoch := t; ev_pending := ev_pending s; ev_batch := ev_batch s; ev_count := ev_count s; ev_reg := ev_reg s; use_raw := use_raw s; rw_reg := rw_reg s; rw_rfd := rw_rfd s; rw_wfd := rw_wfd s; kern := kern s; trace := trace s; invoc := invoc s |}.
-Definition set_evlists s p b := {| fdt := fdt s; active := active s; handled := handled s; numfds := numfds s; last_abs := last_abs s; last_abs_count := last_abs_count s; method := method s; notify := notify s; epfd := epfd s; tfd := tfd s; pwait2 := pwait2 s; efd_epoll := efd_epoll s; efd_raw := efd_raw s; active_fd := active_fd s; active_ref := active_ref s; pfds := pfds s; pkeys := pkeys s; quit := quit s; numobjs := numobjs s; heap := heap s; time := time s; time_valid := time_valid s; tasks := tasks s; cur := cur s; epoch := epoch s; tepoch := tepoch s; ev_pending := p; ev_batch := b; ev_count := ev_count s; ev_reg := ev_reg s; use_raw := use_raw s; rw_reg := rw_reg s; rw_rfd := rw_rfd s; rw_wfd := rw_wfd s; kern := kern s; trace := trace s; invoc := invoc s |}.
-Definition set_ev s c r u := {| fdt := fdt s; active := active s; handled := handled s; numfds := numfds s; last_abs := last_abs s; last_abs_count := last_abs_count s; method := method s; notify := notify s; epfd := epfd s; tfd := tfd s; pwait2 := pwait2 s; efd_epoll := efd_epoll s; efd_raw := efd_raw s; active_fd := active_fd s; active_ref := active_ref s; pfds := pfds s; pkeys := pkeys s; quit := quit s; numobjs := numobjs s; heap := heap s; time := time s; time_valid := time_valid s; tasks := tasks s; cur := cur s; epoch := epoch s; tepoch := tepoch s; ev_pending := ev_pending s; ev_batch := ev_batch s; ev_count := c; ev_reg := r; use_raw := u; rw_reg := rw_reg s; rw_rfd := rw_rfd s; rw_wfd := rw_wfd s; kern := kern s; trace := trace s; invoc := invoc s |}.
-Definition set_rw s r a b := {| fdt := fdt s; active := active s; handled := handled s; numfds := numfds s; last_abs := last_abs s; last_abs_count := last_abs_count s; method := method s; notify := notify s; epfd := epfd s; tfd := tfd s; pwait2 := pwait2 s; efd_epoll := efd_epoll s; efd_raw := efd_raw s; active_fd := active_fd s; active_ref := active_ref s; pfds := pfds s; pkeys := pkeys s; quit := quit s; numobjs := numobjs s; heap := heap s; time := time s; time_valid := time_valid s; tasks := tasks s; cur := cur s; epoch := epoch s; tepoch := tepoch s; ev_pending := ev_pending s; ev_batch := ev_batch s; ev_count := ev_count s; ev_reg := ev_reg s; use_raw := use_raw s; rw_reg := r; rw_rfd := a; rw_wfd := b; kern := kern s; trace := trace s; invoc := invoc s |}.
-Definition set_kern s v := {| fdt := fdt s; active := active s; handled := handled s; numfds := numfds s; last_abs := last_abs s; last_abs_count := last_abs_count s; method := method s; notify := notify s; epfd := epfd s; tfd := tfd s; pwait2 := pwait2 s; efd_epoll := efd_epoll s; efd_raw := efd_raw s; active_fd := active_fd s; active_ref := active_ref s; pfds := pfds s; pkeys := pkeys s; quit := quit s; numobjs := numobjs s; heap := heap s; time := time s; time_valid := time_valid s; tasks := tasks s; cur := cur s; epoch := epoch s; tepoch := tepoch s; ev_pending := ev_pending s; ev_batch := ev_batch s; ev_count := ev_count s; ev_reg := ev_reg s; use_raw := use_raw s; rw_reg := rw_reg s; rw_rfd := rw_rfd s; rw_wfd := rw_wfd s; kern := v; trace := trace s; invoc := invoc s |}.
-Definition set_trace s v := {| fdt := fdt s; active := active s; handled := handled s; numfds := numfds s; last_abs := last_abs s; last_abs_count := last_abs_count s; method := method s; notify := notify s; epfd := epfd s; tfd := tfd s; pwait2 := pwait2 s; efd_epoll := efd_epoll s; efd_raw := efd_raw s; active_fd := active_fd s; active_ref := active_ref s; pfds := pfds s; pkeys := pkeys s; quit := quit s; numobjs := numobjs s; heap := heap s; time := time s; time_valid := time_valid s; tasks := tasks s; cur := cur s; epoch := epoch s; tepoch := tepoch s; ev_pending := ev_pending s; ev_batch := ev_batch s; ev_count := ev_count s; ev_reg := ev_reg s; use_raw := use_raw s; rw_reg := rw_reg s; rw_rfd := rw_rfd s; rw_wfd := rw_wfd s; kern := kern s; trace := v; invoc := invoc s |}.
-Definition set_invoc s v := {| fdt := fdt s; active := active s; handled := handled s; numfds := numfds s; last_abs := last_abs s; last_abs_count := last_abs_count s; method := method s; notify := notify s; epfd := epfd s; tfd := tfd s; pwait2 := pwait2 s; efd_epoll := efd_epoll s; efd_raw := efd_raw s; active_fd := active_fd s; active_ref := active_ref s; pfds := pfds s; pkeys := pkeys s; quit := quit s; numobjs := numobjs s; heap := heap s; time := time s; time_valid := time_valid s; tasks := tasks s; cur := cur s; epoch := epoch s; tepoch := tepoch s; ev_pending := ev_pending s; ev_batch := ev_batch s; ev_count := ev_count s; ev_reg := ev_reg s; use_raw := use_raw s; rw_reg := rw_reg s; rw_rfd := rw_rfd s; rw_wfd := rw_wfd s; kern := kern s; trace := trace s; invoc := v |}.
+Definition set_fdt s v := {| fdt := v; active := active s; handled := handled s; numfds := numfds s; last_abs := last_abs s; last_abs_count := last_abs_count s; method := method s; notify := notify s; epfd := epfd s; tfd := tfd s; pwait2 := pwait2 s; efd_epoll := efd_epoll s; efd_raw := efd_raw s; active_fd := active_fd s; active_ref := active_ref s; active_wr := active_wr s; pfds := pfds s; pkeys := pkeys s; quit := quit s; numobjs := numobjs s; heap := heap s; time := time s; time_valid := time_valid s; tasks := tasks s; cur := cur s; epoch := epoch s; tepoch := tepoch s; ev_pending := ev_pending s; ev_batch := ev_batch s; ev_count := ev_count s; ev_reg := ev_reg s; use_raw := use_raw s; rw_reg := rw_reg s; rw_rfd := rw_rfd s; rw_wfd := rw_wfd s; kern := kern s; trace := trace s; invoc := invoc s |}.
+Definition set_active s v := {| fdt := fdt s; active := v; handled := handled s; numfds := numfds s; last_abs := last_abs s; last_abs_count := last_abs_count s; method := method s; notify := notify s; epfd := epfd s; tfd := tfd s; pwait2 := pwait2 s; efd_epoll := efd_epoll s; efd_raw := efd_raw s; active_fd := active_fd s; active_ref := active_ref s; active_wr := active_wr s; pfds := pfds s; pkeys := pkeys s; quit := quit s; numobjs := numobjs s; heap := heap s; time := time s; time_valid := time_valid s; tasks := tasks s; cur := cur s; epoch := epoch s; tepoch := tepoch s; ev_pending := ev_pending s; ev_batch := ev_batch s; ev_count := ev_count s; ev_reg := ev_reg s; use_raw := use_raw s; rw_reg := rw_reg s; rw_rfd := rw_rfd s; rw_wfd := rw_wfd s; kern := kern s; trace := trace s; invoc := invoc s |}.
+Definition set_handled s v := {| fdt := fdt s; active := active s; handled := v; numfds := numfds s; last_abs := last_abs s; last_abs_count := last_abs_count s; method := method s; notify := notify s; epfd := epfd s; tfd := tfd s; pwait2 := pwait2 s; efd_epoll := efd_epoll s; efd_raw := efd_raw s; active_fd := active_fd s; active_ref := active_ref s; active_wr := active_wr s; pfds := pfds s; pkeys := pkeys s; quit := quit s; numobjs := numobjs s; heap := heap s; time := time s; time_valid := time_valid s; tasks := tasks s; cur := cur s; epoch := epoch s; tepoch := tepoch s; ev_pending := ev_pending s; ev_batch := ev_batch s; ev_count := ev_count s; ev_reg := ev_reg s; use_raw := use_raw s; rw_reg := rw_reg s; rw_rfd := rw_rfd s; rw_wfd := rw_wfd s; kern := kern s; trace := trace s; invoc := invoc s |}.
+Definition set_numfds s v := {| fdt := fdt s; active := active s; handled := handled s; numfds := v; last_abs := last_abs s; last_abs_count := last_abs_count s; method := method s; notify := notify s; epfd := epfd s; tfd := tfd s; pwait2 := pwait2 s; efd_epoll := efd_epoll s; efd_raw := efd_raw s; active_fd := active_fd s; active_ref := active_ref s; active_wr := active_wr s; pfds := pfds s; pkeys := pkeys s; quit := quit s; numobjs := numobjs s; heap := heap s; time := time s; time_valid := time_valid s; tasks := tasks s; cur := cur s; epoch := epoch s; tepoch := tepoch s; ev_pending := ev_pending s; ev_batch := ev_batch s; ev_count := ev_count s; ev_reg := ev_reg s; use_raw := use_raw s; rw_reg := rw_reg s; rw_rfd := rw_rfd s; rw_wfd := rw_wfd s; kern := kern s; trace := trace s; invoc := invoc s |}.
+Definition set_last_abs s v c := {| fdt := fdt s; active := active s; handled := handled s; numfds := numfds s; last_abs := v; last_abs_count := c; method := method s; notify := notify s; epfd := epfd s; tfd := tfd s; pwait2 := pwait2 s; efd_epoll := efd_epoll s; efd_raw := efd_raw s; active_fd := active_fd s; active_ref := active_ref s; active_wr := active_wr s; pfds := pfds s; pkeys := pkeys s; quit := quit s; numobjs := numobjs s; heap := heap s; time := time s; time_valid := time_valid s; tasks := tasks s; cur := cur s; epoch := epoch s; tepoch := tepoch s; ev_pending := ev_pending s; ev_batch := ev_batch s; ev_count := ev_count s; ev_reg := ev_reg s; use_raw := use_raw s; rw_reg := rw_reg s; rw_rfd := rw_rfd s; rw_wfd := rw_wfd s; kern := kern s; trace := trace s; invoc := invoc s |}.
+Definition set_method s v := {| fdt := fdt s; active := active s; handled := handled s; numfds := numfds s; last_abs := last_abs s; last_abs_count := last_abs_count s; method := v; notify := notify s; epfd := epfd s; tfd := tfd s; pwait2 := pwait2 s; efd_epoll := efd_epoll s; efd_raw := efd_raw s; active_fd := active_fd s; active_ref := active_ref s; active_wr := active_wr s; pfds := pfds s; pkeys := pkeys s; quit := quit s; numobjs := numobjs s; heap := heap s; time := time s; time_valid := time_valid s; tasks := tasks s; cur := cur s; epoch := epoch s; tepoch := tepoch s; ev_pending := ev_pending s; ev_batch := ev_batch s; ev_count := ev_count s; ev_reg := ev_reg s; use_raw := use_raw s; rw_reg := rw_reg s; rw_rfd := rw_rfd s; rw_wfd := rw_wfd s; kern := kern s; trace := trace s; invoc := invoc s |}.
+Definition set_notify s v := {| fdt := fdt s; active := active s; handled := handled s; numfds := numfds s; last_abs := last_abs s; last_abs_count := last_abs_count s; method := method s; notify := v; epfd := epfd s; tfd := tfd s; pwait2 := pwait2 s; efd_epoll := efd_epoll s; efd_raw := efd_raw s; active_fd := active_fd s; active_ref := active_ref s; active_wr := active_wr s; pfds := pfds s; pkeys := pkeys s; quit := quit s; numobjs := numobjs s; heap := heap s; time := time s; time_valid := time_valid s; tasks := tasks s; cur := cur s; epoch := epoch s; tepoch := tepoch s; ev_pending := ev_pending s; ev_batch := ev_batch s; ev_count := ev_count s; ev_reg := ev_reg s; use_raw := use_raw s; rw_reg := rw_reg s; rw_rfd := rw_rfd s; rw_wfd := rw_wfd s; kern := kern s; trace := trace s; invoc := invoc s |}.
+Definition set_epoll s e t p := {| fdt := fdt s; active := active s; handled := handled s; numfds := numfds s; last_abs := last_abs s; last_abs_count := last_abs_count s; method := method s; notify := notify s; epfd := e; tfd := t; pwait2 := p; efd_epoll := efd_epoll s; efd_raw := efd_raw s; active_fd := active_fd s; active_ref := active_ref s; active_wr := active_wr s; pfds := pfds s; pkeys := pkeys s; quit := quit s; numobjs := numobjs s; heap := heap s; time := time s; time_valid := time_valid s; tasks := tasks s; cur := cur s; epoch := epoch s; tepoch := tepoch s; ev_pending := ev_pending s; ev_batch := ev_batch s; ev_count := ev_count s; ev_reg := ev_reg s; use_raw := use_raw s; rw_reg := rw_reg s; rw_rfd := rw_rfd s; rw_wfd := rw_wfd s; kern := kern s; trace := trace s; invoc := invoc s |}.
+Definition set_efd s a b := {| fdt := fdt s; active := active s; handled := handled s; numfds := numfds s; last_abs := last_abs s; last_abs_count := last_abs_count s; method := method s; notify := notify s; epfd := epfd s; tfd := tfd s; pwait2 := pwait2 s; efd_epoll := a; efd_raw := b; active_fd := active_fd s; active_ref := active_ref s; active_wr := active_wr s; pfds := pfds s; pkeys := pkeys s; quit := quit s; numobjs := numobjs s; heap := heap s; time := time s; time_valid := time_valid s; tasks := tasks s; cur := cur s; epoch := epoch s; tepoch := tepoch s; ev_pending := ev_pending s; ev_batch := ev_batch s; ev_count := ev_count s; ev_reg := ev_reg s; use_raw := use_raw s; rw_reg := rw_reg s; rw_rfd := rw_rfd s; rw_wfd := rw_wfd s; kern := kern s; trace := trace s; invoc := invoc s |}.
+Definition set_activewr s w := {| fdt := fdt s; active := active s; handled := handled s; numfds := numfds s; last_abs := last_abs s; last_abs_count := last_abs_count s; method := method s; notify := notify s; epfd := epfd s; tfd := tfd s; pwait2 := pwait2 s; efd_epoll := efd_epoll s; efd_raw := efd_raw s; active_fd := active_fd s; active_ref := active_ref s; active_wr := w; pfds := pfds s; pkeys := pkeys s; quit := quit s; numobjs := numobjs s; heap := heap s; time := time s; time_valid := time_valid s; tasks := tasks s; cur := cur s; epoch := epoch s; tepoch := tepoch s; ev_pending := ev_pending s; ev_batch := ev_batch s; ev_count := ev_count s; ev_reg := ev_reg s; use_raw := use_raw s; rw_reg := rw_reg s; rw_rfd := rw_rfd s; rw_wfd := rw_wfd s; kern := kern s; trace := trace s; invoc := invoc s |}.
+Definition set_activefd s a r := {| fdt := fdt s; active := active s; handled := handled s; numfds := numfds s; last_abs := last_abs s; last_abs_count := last_abs_count s; method := method s; notify := notify s; epfd := epfd s; tfd := tfd s; pwait2 := pwait2 s; efd_epoll := efd_epoll s; efd_raw := efd_raw s; active_fd := a; active_ref := r; active_wr := active_wr s; pfds := pfds s; pkeys := pkeys s; quit := quit s; numobjs := numobjs s; heap := heap s; time := time s; time_valid := time_valid s; tasks := tasks s; cur := cur s; epoch := epoch s; tepoch := tepoch s; ev_pending := ev_pending s; ev_batch := ev_batch s; ev_count := ev_count s; ev_reg := ev_reg s; use_raw := use_raw s; rw_reg := rw_reg s; rw_rfd := rw_rfd s; rw_wfd := rw_wfd s; kern := kern s; trace := trace s; invoc := invoc s |}.
+Definition set_poll s p k := {| fdt := fdt s; active := active s; handled := handled s; numfds := numfds s; last_abs := last_abs s; last_abs_count := last_abs_count s; method := method s; notify := notify s; epfd := epfd s; tfd := tfd s; pwait2 := pwait2 s; efd_epoll := efd_epoll s; efd_raw := efd_raw s; active_fd := active_fd s; active_ref := active_ref s; active_wr := active_wr s; pfds := p; pkeys := k; quit := quit s; numobjs := numobjs s; heap := heap s; time := time s; time_valid := time_valid s; tasks := tasks s; cur := cur s; epoch := epoch s; tepoch := tepoch s; ev_pending := ev_pending s; ev_batch := ev_batch s; ev_count := ev_count s; ev_reg := ev_reg s; use_raw := use_raw s; rw_reg := rw_reg s; rw_rfd := rw_rfd s; rw_wfd := rw_wfd s; kern := kern s; trace := trace s; invoc := invoc s |}.
+Definition set_quit s v := {| fdt := fdt s; active := active s; handled := handled s; numfds := numfds s; last_abs := last_abs s; last_abs_count := last_abs_count s; method := method s; notify := notify s; epfd := epfd s; tfd := tfd s; pwait2 := pwait2 s; efd_epoll := efd_epoll s; efd_raw := efd_raw s; active_fd := active_fd s; active_ref := active_ref s; active_wr := active_wr s; pfds := pfds s; pkeys := pkeys s; quit := v; numobjs := numobjs s; heap := heap s; time := time s; time_valid := time_valid s; tasks := tasks s; cur := cur s; epoch := epoch s; tepoch := tepoch s; ev_pending := ev_pending s; ev_batch := ev_batch s; ev_count := ev_count s; ev_reg := ev_reg s; use_raw := use_raw s; rw_reg := rw_reg s; rw_rfd := rw_rfd s; rw_wfd := rw_wfd s; kern := kern s; trace := trace s; invoc := invoc s |}.
+Definition set_numobjs s v := {| fdt := fdt s; active := active s; handled := handled s; numfds := numfds s; last_abs := last_abs s; last_abs_count := last_abs_count s; method := method s; notify := notify s; epfd := epfd s; tfd := tfd s; pwait2 := pwait2 s; efd_epoll := efd_epoll s; efd_raw := efd_raw s; active_fd := active_fd s; active_ref := active_ref s; active_wr := active_wr s; pfds := pfds s; pkeys := pkeys s; quit := quit s; numobjs := v; heap := heap s; time := time s; time_valid := time_valid s; tasks := tasks s; cur := cur s; epoch := epoch s; tepoch := tepoch s; ev_pending := ev_pending s; ev_batch := ev_batch s; ev_count := ev_count s; ev_reg := ev_reg s; use_raw := use_raw s; rw_reg := rw_reg s; rw_rfd := rw_rfd s; rw_wfd := rw_wfd s; kern := kern s; trace := trace s; invoc := invoc s |}.
+Definition set_heap s v := {| fdt := fdt s; active := active s; handled := handled s; numfds := numfds s; last_abs := last_abs s; last_abs_count := last_abs_count s; method := method s; notify := notify s; epfd := epfd s; tfd := tfd s; pwait2 := pwait2 s; efd_epoll := efd_epoll s; efd_raw := efd_raw s; active_fd := active_fd s; active_ref := active_ref s; active_wr := active_wr s; pfds := pfds s; pkeys := pkeys s; quit := quit s; numobjs := numobjs s; heap := v; time := time s; time_valid := time_valid s; tasks := tasks s; cur := cur s; epoch := epoch s; tepoch := tepoch s; ev_pending := ev_pending s; ev_batch := ev_batch s; ev_count := ev_count s; ev_reg := ev_reg s; use_raw := use_raw s; rw_reg := rw_reg s; rw_rfd := rw_rfd s; rw_wfd := rw_wfd s; kern := kern s; trace := trace s; invoc := invoc s |}.
+Definition set_time s t v := {| fdt := fdt s; active := active s; handled := handled s; numfds := numfds s; last_abs := last_abs s; last_abs_count := last_abs_count s; method := method s; notify := notify s; epfd := epfd s; tfd := tfd s; pwait2 := pwait2 s; efd_epoll := efd_epoll s; efd_raw := efd_raw s; active_fd := active_fd s; active_ref := active_ref s; active_wr := active_wr s; pfds := pfds s; pkeys := pkeys s; quit := quit s; numobjs := numobjs s; heap := heap s; time := t; time_valid := v; tasks := tasks s; cur := cur s; epoch := epoch s; tepoch := tepoch s; ev_pending := ev_pending s; ev_batch := ev_batch s; ev_count := ev_count s; ev_reg := ev_reg s; use_raw := use_raw s; rw_reg := rw_reg s; rw_rfd := rw_rfd s; rw_wfd := rw_wfd s; kern := kern s; trace := trace s; invoc := invoc s |}.
+Definition set_tasks s t c := {| fdt := fdt s; active := active s; handled := handled s; numfds := numfds s; last_abs := last_abs s; last_abs_count := last_abs_count s; method := method s; notify := notify s; epfd := epfd s; tfd := tfd s; pwait2 := pwait2 s; efd_epoll := efd_epoll s; efd_raw := efd_raw s; active_fd := active_fd s; active_ref := active_ref s; active_wr := active_wr s; pfds := pfds s; pkeys := pkeys s; quit := quit s; numobjs := numobjs s; heap := heap s; time := time s; time_valid := time_valid s; tasks := t; cur := c; epoch := epoch s; tepoch := tepoch s; ev_pending := ev_pending s; ev_batch := ev_batch s; ev_count := ev_count s; ev_reg := ev_reg s; use_raw := use_raw s; rw_reg := rw_reg s; rw_rfd := rw_rfd s; rw_wfd := rw_wfd s; kern := kern s; trace := trace s; invoc := invoc s |}.
+Definition set_epoch s e t := {| fdt := fdt s; active := active s; handled := handled s; numfds := numfds s; last_abs := last_abs s; last_abs_count := last_abs_count s; method := method s; notify := notify s; epfd := epfd s; tfd := tfd s; pwait2 := pwait2 s; efd_epoll := efd_epoll s; efd_raw := efd_raw s; active_fd := active_fd s; active_ref := active_ref s; active_wr := active_wr s; pfds := pfds s; pkeys := pkeys s; quit := quit s; numobjs := numobjs s; heap := heap s; time := time s; time_valid := time_valid s; tasks := tasks s; cur := cur s; epoch := e; tepoch := t; ev_pending := ev_pending s; ev_batch := ev_batch s; ev_count := ev_count s; ev_reg := ev_reg s; use_raw := use_raw s; rw_reg := rw_reg s; rw_rfd := rw_rfd s; rw_wfd := rw_wfd s; kern := kern s; trace := trace s; invoc := invoc s |}.
+Definition set_evlists s p b := {| fdt := fdt s; active := active s; handled := handled s; numfds := numfds s; last_abs := last_abs s; last_abs_count := last_abs_count s; method := method s; notify := notify s; epfd := epfd s; tfd := tfd s; pwait2 := pwait2 s; efd_epoll := efd_epoll s; efd_raw := efd_raw s; active_fd := active_fd s; active_ref := active_ref s; active_wr := active_wr s; pfds := pfds s; pkeys := pkeys s; quit := quit s; numobjs := numobjs s; heap := heap s; time := time s; time_valid := time_valid s; tasks := tasks s; cur := cur s; epoch := epoch s; tepoch := tepoch s; ev_pending := p; ev_batch := b; ev_count := ev_count s; ev_reg := ev_reg s; use_raw := use_raw s; rw_reg := rw_reg s; rw_rfd := rw_rfd s; rw_wfd := rw_wfd s; kern := kern s; trace := trace s; invoc := invoc s |}.
+Definition set_ev s c r u := {| fdt := fdt s; active := active s; handled := handled s; numfds := numfds s; last_abs := last_abs s; last_abs_count := last_abs_count s; method := method s; notify := notify s; epfd := epfd s; tfd := tfd s; pwait2 := pwait2 s; efd_epoll := efd_epoll s; efd_raw := efd_raw s; active_fd := active_fd s; active_ref := active_ref s; active_wr := active_wr s; pfds := pfds s; pkeys := pkeys s; quit := quit s; numobjs := numobjs s; heap := heap s; time := time s; time_valid := time_valid s; tasks := tasks s; cur := cur s; epoch := epoch s; tepoch := tepoch s; ev_pending := ev_pending s; ev_batch := ev_batch s; ev_count := c; ev_reg := r; use_raw := u; rw_reg := rw_reg s; rw_rfd := rw_rfd s; rw_wfd := rw_wfd s; kern := kern s; trace := trace s; invoc := invoc s |}.
+Definition set_rw s r a b := {| fdt := fdt s; active := active s; handled := handled s; numfds := numfds s; last_abs := last_abs s; last_abs_count := last_abs_count s; method := method s; notify := notify s; epfd := epfd s; tfd := tfd s; pwait2 := pwait2 s; efd_epoll := efd_epoll s; efd_raw := efd_raw s; active_fd := active_fd s; active_ref := active_ref s; active_wr := active_wr s; pfds := pfds s; pkeys := pkeys s; quit := quit s; numobjs := numobjs s; heap := heap s; time := time s; time_valid := time_valid s; tasks := tasks s; cur := cur s; epoch := epoch s; tepoch := tepoch s; ev_pending := ev_pending s; ev_batch := ev_batch s; ev_count := ev_count s; ev_reg := ev_reg s; use_raw := use_raw s; rw_reg := r; rw_rfd := a; rw_wfd := b; kern := kern s; trace := trace s; invoc := invoc s |}.
+Definition set_kern s v := {| fdt := fdt s; active := active s; handled := handled s; numfds := numfds s; last_abs := last_abs s; last_abs_count := last_abs_count s; method := method s; notify := notify s; epfd := epfd s; tfd := tfd s; pwait2 := pwait2 s; efd_epoll := efd_epoll s; efd_raw := efd_raw s; active_fd := active_fd s; active_ref := active_ref s; active_wr := active_wr s; pfds := pfds s; pkeys := pkeys s; quit := quit s; numobjs := numobjs s; heap := heap s; time := time s; time_valid := time_valid s; tasks := tasks s; cur := cur s; epoch := epoch s; tepoch := tepoch s; ev_pending := ev_pending s; ev_batch := ev_batch s; ev_count := ev_count s; ev_reg := ev_reg s; use_raw := use_raw s; rw_reg := rw_reg s; rw_rfd := rw_rfd s; rw_wfd := rw_wfd s; kern := v; trace := trace s; invoc := invoc s |}.
+Definition set_trace s v := {| fdt := fdt s; active := active s; handled := handled s; numfds := numfds s; last_abs := last_abs s; last_abs_count := last_abs_count s; method := method s; notify := notify s; epfd := epfd s; tfd := tfd s; pwait2 := pwait2 s; efd_epoll := efd_epoll s; efd_raw := efd_raw s; active_fd := active_fd s; active_ref := active_ref s; active_wr := active_wr s; pfds := pfds s; pkeys := pkeys s; quit := quit s; numobjs := numobjs s; heap := heap s; time := time s; time_valid := time_valid s; tasks := tasks s; cur := cur s; epoch := epoch s; tepoch := tepoch s; ev_pending := ev_pending s; ev_batch := ev_batch s; ev_count := ev_count s; ev_reg := ev_reg s; use_raw := use_raw s; rw_reg := rw_reg s; rw_rfd := rw_rfd s; rw_wfd := rw_wfd s; kern := kern s; trace := v; invoc := invoc s |}.
+Definition set_invoc s v := {| fdt := fdt s; active := active s; handled := handled s; numfds := numfds s; last_abs := last_abs s; last_abs_count := last_abs_count s; method := method s; notify := notify s; epfd := epfd s; tfd := tfd s; pwait2 := pwait2 s; efd_epoll := efd_epoll s; efd_raw := efd_raw s; active_fd := active_fd s; active_ref := active_ref s; active_wr := active_wr s; pfds := pfds s; pkeys := pkeys s; quit := quit s; numobjs := numobjs s; heap := heap s; time := time s; time_valid := time_valid s; tasks := tasks s; cur := cur s; epoch := epoch s; tepoch := tepoch s; ev_pending := ev_pending s; ev_batch := ev_batch s; ev_count := ev_count s; ev_reg := ev_reg s; use_raw := use_raw s; rw_reg := rw_reg s; rw_rfd := rw_rfd s; rw_wfd := rw_wfd s; kern := kern s; trace := trace s; invoc := v |}.
 
 Definition emit (s : core) (e : tev) : core := set_trace s (e :: trace s).
 
